@@ -259,6 +259,9 @@ pub enum Req {
     WorkerList,
     WorkerInfo(u32),
     StopWorker(u32),
+    /// open an event stream in mode PastAndLiveEvents (what `hq journal stream` and the
+    /// dashboard do): history replayed from the journal, then the live events
+    StreamAll,
 }
 
 #[derive(Debug, Clone, Serialize, Deserialize, PartialEq, Eq, Hash, Default)]
